@@ -149,6 +149,37 @@ static std::string wr_ident(const IdentitiesPtr& id) {
   return "(" + head + " " + std::to_string(id->ref()) + " " + fl + " " + std::to_string(id->width()) + " " + std::to_string(id->length()) + " " + data + ")";
 }
 
+// ---- input buffers of the current request, by key (see pyshim/core.py "buffer identity")
+struct Mem { std::shared_ptr<void> ptr; size_t nbytes; };
+static std::map<std::string, Mem> g_mem;
+static std::map<uintptr_t, std::string> g_mem_by_addr;
+static std::shared_ptr<void> mem_get(const Sx* keyatom, const std::string& data, bool have_data_atom) {
+  if (keyatom != nullptr) {
+    auto it = g_mem.find(keyatom->a);
+    if (it != g_mem.end()) return it->second.ptr;
+  }
+  std::shared_ptr<void> ptr = kernel::malloc<void>(kernel::lib::cpu, (int64_t)(data.size() > 0 ? data.size() : 1));
+  if (!data.empty()) std::memcpy(ptr.get(), data.data(), data.size());
+  if (keyatom != nullptr) {
+    if (data.empty()) throw std::logic_error("buffer key " + keyatom->a + " used before it was defined");
+    Mem m; m.ptr = ptr; m.nbytes = data.size();
+    g_mem[keyatom->a] = m;
+    g_mem_by_addr[(uintptr_t)ptr.get()] = keyatom->a;
+  }
+  return ptr;
+}
+// is [p, p+n) inside an input buffer?  -> key and offset
+static bool mem_find(const void* p, size_t n, std::string& key, size_t& off) {
+  if (g_mem_by_addr.empty() || n == 0) return false;
+  uintptr_t a = (uintptr_t)p;
+  auto it = g_mem_by_addr.upper_bound(a);
+  if (it == g_mem_by_addr.begin()) return false;
+  --it;
+  const Mem& m = g_mem[it->second];
+  if (a >= it->first && a + n <= it->first + m.nbytes) { key = it->second; off = (size_t)(a - it->first); return true; }
+  return false;
+}
+
 template <typename T> struct IxName;
 template <> struct IxName<int8_t> { static const char* n() { return "i8"; } };
 template <> struct IxName<uint8_t> { static const char* n() { return "u8"; } };
@@ -160,6 +191,11 @@ template <typename T>
 static IndexOf<T> rd_ix(const Sx& x) {
   if (x.head() != IxName<T>::n()) throw std::logic_error(std::string("index of type ") + IxName<T>::n() + " expected, got " + x.head());
   std::string d = unhex(x[1]);
+  if (x.size() > 2) {   // keyed: shared with every other node that names the same key
+    std::shared_ptr<void> ptr = mem_get(&x[2], d, true);
+    size_t nbytes = g_mem[x[2].a].nbytes;
+    return IndexOf<T>(std::static_pointer_cast<T>(ptr), 0, (int64_t)(nbytes / sizeof(T)), kernel::lib::cpu);
+  }
   int64_t n = (int64_t)(d.size() / sizeof(T));
   IndexOf<T> out(n);
   if (n) std::memcpy(out.data(), d.data(), (size_t)n * sizeof(T));
@@ -167,6 +203,9 @@ static IndexOf<T> rd_ix(const Sx& x) {
 }
 template <typename T>
 static std::string wr_ix(const IndexOf<T>& ix) {
+  std::string key; size_t off;
+  if (mem_find(ix.data(), (size_t)ix.length() * sizeof(T), key, off))
+    return std::string("(") + IxName<T>::n() + " @ " + key + " " + std::to_string(off) + " " + std::to_string(ix.length()) + ")";
   return std::string("(") + IxName<T>::n() + " " + hex_of(ix.data(), (size_t)ix.length() * sizeof(T)) + ")";
 }
 static std::vector<std::string> rd_strs(const Sx& x) {
@@ -229,6 +268,9 @@ private:
 class RemoteGenerator : public ArrayGenerator {
 public:
   RemoteGenerator(const FormPtr& form, int64_t length, int64_t id) : ArrayGenerator(form, length), id_(id) {}
+  void set_inferred(const FormPtr& f) { inferred_form_ = f; }
+  const FormPtr declared_form() const { return form_; }
+  const FormPtr inferred_form() const { return inferred_form_; }
   int64_t id() const { return id_; }
   const ContentPtr generate() const override {
     Sx r = callback("(cb gen " + std::to_string(id_) + ")");
@@ -250,13 +292,17 @@ private:
 };
 
 static ArrayGeneratorPtr rd_gen(const Sx& x) {
-  if (x.head() == "pygen") return std::make_shared<RemoteGenerator>(rd_form(x[2]), to_i64(x[3]), to_i64(x[1]));
+  if (x.head() == "pygen") {
+    auto g = std::make_shared<RemoteGenerator>(rd_form(x[2]), to_i64(x[3]), to_i64(x[1]));
+    if (x.size() > 4) g->set_inferred(rd_form(x[4]));
+    return g;
+  }
   if (x.head() == "slicegen") return std::make_shared<SliceGenerator>(rd_form(x[1]), to_i64(x[2]), pb(x[3]), rd_slice(x[4]));
   throw std::logic_error("generator expected");
 }
 static std::string wr_gen(const ArrayGeneratorPtr& g) {
   if (RemoteGenerator* r = dynamic_cast<RemoteGenerator*>(g.get()))
-    return "(pygen " + std::to_string(r->id()) + " " + wr_form(r->form()) + " " + std::to_string(r->length()) + ")";
+    return "(pygen " + std::to_string(r->id()) + " " + wr_form(r->declared_form()) + " " + std::to_string(r->length()) + " " + wr_form(r->inferred_form()) + ")";
   if (SliceGenerator* r = dynamic_cast<SliceGenerator*>(g.get()))
     return "(slicegen " + wr_form(r->form()) + " " + std::to_string(r->length()) + " " + pd(r->content()) + " " + wr_slice(r->slice()) + ")";
   throw std::runtime_error("unknown ArrayGenerator subtype");
@@ -303,8 +349,7 @@ static ContentPtr pb(const Sx& x) {
     util::dtype d;
     if (dtname.rfind("datetime64", 0) == 0 || dtname.rfind("timedelta64", 0) == 0) d = util::name_to_dtype(dtname);
     else d = util::format_to_dtype(format, itemsize);
-    std::shared_ptr<void> ptr = kernel::malloc<void>(kernel::lib::cpu, (int64_t)(data.size() > 0 ? data.size() : 1));
-    if (!data.empty()) std::memcpy(ptr.get(), data.data(), data.size());
+    std::shared_ptr<void> ptr = mem_get(x.size() > 10 ? &x[10] : nullptr, data, true);
     std::vector<ssize_t> sh, st;
     for (auto s : shape) sh.push_back((ssize_t)s);
     for (auto s : strides) st.push_back((ssize_t)s);
@@ -391,8 +436,14 @@ static std::string pd_numpy(const NumpyArray* r, bool scalar_ok) {
   std::string sh = "(", st = "(";
   for (size_t i = 0; i < r->shape().size(); i++) { if (i) { sh += " "; st += " "; } sh += std::to_string(r->shape()[i]); st += std::to_string(r->strides()[i]); }
   sh += ")"; st += ")";
+  std::string key; size_t off;
+  std::string datafield;
+  if (mem_find(base + low, (size_t)(high - low), key, off))
+    datafield = "(ref " + key + " " + std::to_string(off) + " " + std::to_string(high - low) + ")";
+  else
+    datafield = hex_of(base + low, (size_t)(high - low));
   return "(np " + wr_params(r->parameters()) + " " + wr_ident(r->identities()) + " " + dtname + " " + hexs(r->format()) + " " + sh + " " + st + " "
-         + std::to_string(-low) + " " + hex_of(base + low, (size_t)(high - low)) + " " + std::to_string(r->itemsize()) + ")";
+         + std::to_string(-low) + " " + datafield + " " + std::to_string(r->itemsize()) + ")";
 }
 
 static std::string pd_raw(const Content* c) {
@@ -587,6 +638,7 @@ static std::string call_content(const std::string& m, const Sx& cs) {
   if (m == "tostring") return hexs(c->tostring());
   if (m == "type") return wr_type(c->type(rd_typestrs(cs[A])));
   if (m == "form") return wr_form(c->form(false));
+  if (m == "form_materialized") return wr_form(c->form(true));
   if (m == "len") return std::to_string(c->length());
   if (m == "getitem") return pd(c->getitem(rd_slice(cs[A])));
   if (m == "getitem_at") return pd(c->getitem_at(to_i64(cs[A])));
@@ -1106,6 +1158,8 @@ int main() {
   while (std::getline(std::cin, line)) {
     if (line.empty() || line[0] == '#') continue;
     std::string id = "?";
+    g_mem.clear();
+    g_mem_by_addr.clear();
     try {
       Sx cs = parse_line(line);
       id = cs[0].a;
